@@ -601,4 +601,20 @@ def c14_i(ctx: Ctx):
     return res
 
 
-RULES = [c14_a, c14_b, c14_c, c14_d, c14_e, c14_f, c14_g, c14_h, c14_i]
+@rule("C14-j")
+def c14_j(ctx: Ctx):
+    """Project.clone never copies *into* an existing job directory (no dirs_exist_ok, neither spelled at the call nor handed in through **kwargs): project-level sync
+    relies on the DestinationExistsError of the clone to consult the strategy for conflicting files."""
+    R = "C14-j"
+    f = ctx.fn("signac.project:Project.clone")
+    k = f.qual + "|no-copy-into-existing"
+    words = [n for n in body_nodes(f) if (isinstance(n, ast.Constant) and n.value == "dirs_exist_ok") or (isinstance(n, ast.keyword) and n.arg == "dirs_exist_ok")]
+    stars = [c for c in body_nodes(f) if isinstance(c, ast.Call) and common.callee_is(ctx, f, c, ("copytree",)) and any(kw.arg is None for kw in c.keywords)]
+    if words:
+        return [ctx.viol(R, f, words[0], "Project.clone can pass dirs_exist_ok to the tree copy: a destination job that exists is copied over without DestinationExistsError, so the sync "
+                         "strategy is never asked about its conflicting files", construct=k)]
+    if stars:
+        return [ctx.inc(R, f, stars[0], "the tree copy receives **kwargs of unknown content", construct=k)]
+    return [ctx.ok(R, f, f.node, "the tree copy of Project.clone fails on an existing destination", construct=k)]
+
+RULES = [c14_a, c14_b, c14_c, c14_d, c14_e, c14_f, c14_g, c14_h, c14_i, c14_j]
